@@ -172,6 +172,13 @@ func VerifC03Big() {
 	zz.Assert(refBE32(b, 18) == uint32(len(b)-22), "big:chunk-length-exact")
 	ref := refDecode(b, refOpts{strict: true})
 	zz.Assert(ref.ok, "big:strict-parser-accepts")
+	// read back by the library: payloads longer than the reader's 4096-byte steps
+	s2, err2, panicked := c02read(b)
+	zz.Assert(!panicked && err2 == nil && s2 != nil, "big:read-back-ok")
+	if panicked || err2 != nil || s2 == nil || !ref.ok {
+		return
+	}
+	c02compare(s2, ref, "big:read-back")
 	zz.Reach("end")
 }
 
